@@ -14,6 +14,7 @@ mod c11;
 mod c12;
 mod c13;
 mod c17;
+mod c14;
 pub mod filters;
 
 use std::io::Write;
@@ -50,6 +51,7 @@ fn main() {
         "C12" => c12::run(&mut ctx),
         "C13" => c13::run(&mut ctx),
         "C17" => c17::run(&mut ctx),
+        "C14" => c14::run(&mut ctx),
         other => {
             eprintln!("unknown property {}", other);
             std::process::exit(2);
